@@ -76,7 +76,7 @@ def r4(ctx):
     for name, f in ctx.prog.fns.items():
         if not name.startswith(PARSER_FNS_PREFIX) or "hir" not in f:
             continue
-        hir = f["hir"]
+        hir = ctx.prog.hir(name)
         for c in calls_to(hir, "FromStr::from_str"):
             rty = c.get("ty", "")
             if "field::Field" not in rty and "function::Function" not in rty:
